@@ -222,6 +222,9 @@ class Builtins:
         return VSeq(S.Unit(x), 'str')
 
     def bi_type(self, I, args, kw, node):
+        v0 = I.unwrap(args[0], node)
+        if isinstance(v0, VOpaque):
+            return VOpaque(self.ctx.uf('field.__class__', T.Obj, T.Obj)(v0.t), 'class')
         tn = I.type_name(args[0], node)
         if isinstance(tn, tuple):
             if tn[0] == 'class':
